@@ -40,14 +40,16 @@ theorem presentation_independent (ext : Ext) (x y : SVal) (b bx bY : B) (dt : Da
   cases hi1
   rw [hd1, hd2]
 
-/-- the same for whole batches through the front end (no `Safe`) -/
+/-- the same for whole batches through the front end (no `Safe`).  Schema predicate: the WEAK `coveredWF` of R3'
+(Lemmas/C01NewShape.lean) — it also admits `Dictionary(integer, V)` with a value builder that refuses strings;
+`fields.all coveredF` implies it (`all_coveredWF_of_coveredF`). -/
 theorem runRows_presentation_independent (ext : Ext) (fields : List Field) (rows1 rows2 : List SVal) (root0 r1 r2 : B)
-    (hc : fields.all coveredF = true) (h0 : newRoot fields = .ok root0)
+    (hc : fields.all coveredWF = true) (h0 : newRoot fields = .ok root0)
     (hraw1 : ∀ x ∈ rows1, noRaw x = true) (hraw2 : ∀ x ∈ rows2, noRaw x = true)
     (hsame : rows1.map (interpRow ext fields) = rows2.map (interpRow ext fields))
     (h1 : runRows ext fields rows1 = .ok r1) (h2 : runRows ext fields rows2 = .ok r2) : dec r1 = dec r2 := by
-  obtain ⟨a1, _, _⟩ := C01.runRows_interp' ext fields rows1 root0 r1 (all_coveredWF_of_coveredF hc) h0 (fun x hx => noRaw_ssa x (hraw1 x hx)) (Or.inl hraw1) h1
-  obtain ⟨a2, _, _⟩ := C01.runRows_interp' ext fields rows2 root0 r2 (all_coveredWF_of_coveredF hc) h0 (fun x hx => noRaw_ssa x (hraw2 x hx)) (Or.inl hraw2) h2
+  obtain ⟨a1, _, _⟩ := C01.runRows_interp' ext fields rows1 root0 r1 hc h0 (fun x hx => noRaw_ssa x (hraw1 x hx)) (Or.inl hraw1) h1
+  obtain ⟨a2, _, _⟩ := C01.runRows_interp' ext fields rows2 root0 r2 hc h0 (fun x hx => noRaw_ssa x (hraw2 x hx)) (Or.inl hraw2) h2
   exact go _ _ _ _ a1 a2 hsame
 where
   go : ∀ (l1 : List LVal) (rows1 : List SVal) (l2 : List LVal) (rows2 : List SVal),
@@ -62,6 +64,30 @@ where
       rw [go l1 r1 l2 r2 t1 t2 hs.2]
     | [], [], _ :: _, _ :: _, _, _, hs => by simp at hs
     | _ :: _, _ :: _, [], [], _, _, hs => by simp at hs
+
+/-- non-vacuity on a schema `coveredF` excludes: a nullable `Dictionary(Int32, Int64)` column (`coveredWF`, not
+`coveredF`), the record `{d: None}` as a struct and as a map — both accepted, same documented row, same rows held -/
+example : [Field.mk "d" (.dictionary .int32 .int64) true []].all coveredF = false ∧
+    ∃ r1 r2, runRows {} [.mk "d" (.dictionary .int32 .int64) true []] [.record "R" (.cons "d" 0 .none .nil)] = .ok r1 ∧
+      runRows {} [.mk "d" (.dictionary .int32 .int64) true []] [.map (.cons (.str "d") .none .nil)] = .ok r2 ∧
+      dec r1 = dec r2 := by
+  refine ⟨by decide, ?_⟩
+  have k0 : (newRoot [.mk "d" (.dictionary .int32 .int64) true []]).isOk = true := by decide +kernel
+  have k1 : (runRows {} [.mk "d" (.dictionary .int32 .int64) true []] [.record "R" (.cons "d" 0 .none .nil)]).isOk = true := by
+    decide +kernel
+  have k2 : (runRows {} [.mk "d" (.dictionary .int32 .int64) true []] [.map (.cons (.str "d") .none .nil)]).isOk = true := by
+    decide +kernel
+  cases h0 : newRoot [.mk "d" (.dictionary .int32 .int64) true []] with
+  | error e => rw [h0] at k0; cases k0
+  | ok root0 =>
+  cases h1 : runRows {} [.mk "d" (.dictionary .int32 .int64) true []] [.record "R" (.cons "d" 0 .none .nil)] with
+  | error e => rw [h1] at k1; cases k1
+  | ok r1 =>
+  cases h2 : runRows {} [.mk "d" (.dictionary .int32 .int64) true []] [.map (.cons (.str "d") .none .nil)] with
+  | error e => rw [h2] at k2; cases k2
+  | ok r2 =>
+    exact ⟨r1, r2, rfl, rfl, runRows_presentation_independent {} _ _ _ root0 r1 r2 (by decide) h0 (by decide) (by decide)
+      (by decide +kernel) h1 h2⟩
 
 /-! ### struct presentation = map presentation -/
 
